@@ -155,3 +155,41 @@ Proof.
     destruct rl as [|l ls]; [destruct n; discriminate|]. exact H4.
   - rewrite H2, app_length. lia.
 Qed.
+
+(* every rune of every line is the rune after some prefix, at (line, column) *)
+Lemma line_rune_prefix : forall suf pre (L : nat) l (j : nat) c,
+  nth_error (split_on 10 suf) L = Some l -> nth_error l j = Some c ->
+  exists q, pfx pre q /\ pfx (q ++ [c]) (pre ++ suf) /\
+            P q = (fst (P pre) + Z.of_nat L, (if Nat.eqb L 0 then snd (P pre) else 0) + Z.of_nat j).
+Proof.
+  induction suf as [|x r IH]; intros pre L l j c HL Hj.
+  - cbn in HL. destruct L as [|L]; [|destruct L; discriminate]. injection HL as <-. destruct j; discriminate.
+  - cbn [split_on] in HL. destruct (N.eqb x 10) eqn:Ex.
+    + apply N.eqb_eq in Ex. subst x. destruct L as [|L].
+      * injection HL as <-. destruct j; discriminate.
+      * cbn [nth_error] in HL. destruct (IH (pre ++ [10%N]) L l j c HL Hj) as (q & Hq1 & Hq2 & Hq3).
+        exists q. split; [eapply pfx_trans; [apply pfx_app|exact Hq1]|]. split; [rewrite <- app_assoc in Hq2; exact Hq2|].
+        rewrite Hq3, P_snoc. unfold adv. cbn [N.eqb Pos.eqb fst snd].
+        f_equal; [lia|]. destruct L; cbn; lia.
+    + destruct (split_on 10 r) as [|l1 ls] eqn:Es; [exfalso; eapply split_on_nonempty; eauto|].
+      destruct L as [|L].
+      * injection HL as <-. destruct j as [|j].
+        -- injection Hj as <-. exists pre. split; [apply pfx_refl|]. split; [apply pfx_snoc|].
+           cbn. rewrite !Z.add_0_r. destruct (P pre); reflexivity.
+        -- cbn [nth_error] in Hj.
+           destruct (IH (pre ++ [x]) 0%nat l1 j c) as (q & Hq1 & Hq2 & Hq3); [reflexivity|exact Hj|].
+           exists q. split; [eapply pfx_trans; [apply pfx_app|exact Hq1]|]. split; [rewrite <- app_assoc in Hq2; exact Hq2|].
+           rewrite Hq3, P_snoc. unfold adv. rewrite Ex. cbn [fst snd Nat.eqb]. f_equal; lia.
+      * cbn [nth_error] in HL.
+        destruct (IH (pre ++ [x]) (S L) l j c) as (q & Hq1 & Hq2 & Hq3); [exact HL|exact Hj|].
+        exists q. split; [eapply pfx_trans; [apply pfx_app|exact Hq1]|]. split; [rewrite <- app_assoc in Hq2; exact Hq2|].
+        rewrite Hq3, P_snoc. unfold adv. rewrite Ex. cbn [fst snd Nat.eqb]. reflexivity.
+Qed.
+
+Lemma line_rune data (L : nat) l (j : nat) c :
+  nth_error (rlines data) L = Some l -> nth_error l j = Some c ->
+  exists q, pfx (q ++ [c]) data /\ fst (P q) = Z.of_nat L.
+Proof.
+  intros HL Hj. destruct (line_rune_prefix data [] L l j c HL Hj) as (q & _ & Hq2 & Hq3).
+  exists q. split; [exact Hq2|]. rewrite Hq3. reflexivity.
+Qed.
